@@ -408,7 +408,8 @@ def normalize_power(array, power=1):
 
     """
     array = np.asarray(array)
-    return array * np.sqrt(power/np.sum(np.abs(array)**2))
+    # square in double precision: |array|**2 wraps around in 8/16-bit integer types
+    return array * np.sqrt(power/np.sum(np.abs(array).astype(float)**2))
 
 
 def sanitize_shape(shape):
